@@ -164,9 +164,9 @@ def run(res: Result, scenarios: list[str], keep: dict, oracle, label: str = ""):
     # every scenario (every second one in the quick tier) also runs on the real node under the alternative schedule in
     # which writer and I/O loop run as soon as a message is queued; those runs are judged by the direct oracle only
     plain = [l for l in scenarios if ";eager=1" not in l.split("|")[0] and "during=" not in l.split("|")[0]]
-    if not any(";eager=1" in l.split("|")[0] for l in scenarios):
-        step = 1 if (res.tier != "quick" or os.environ.get("VERIF_EAGER_ALL") == "1") else 2
-        scenarios = scenarios + [eager(l) for l in plain[::step]]
+    step = 1 if (res.tier != "quick" or os.environ.get("VERIF_EAGER_ALL") == "1") else 2
+    have = set(scenarios)
+    scenarios = scenarios + [e for e in (eager(l) for l in plain[::step]) if e not in have]
     reals = [run_real(l) for l in scenarios]
     models = [m.split(" ## ") for m in run_driver(scenarios)]
     fails, div = [], []
